@@ -1,7 +1,1108 @@
-//! C12: not implemented yet.
+//! C12: AUTO_INCREMENT values are unique and increasing.
+//!
+//! Observational monitor per history: `ever` = every integer the AUTO_INCREMENT column was ever
+//! observed to hold (RETURNING values and a full `SELECT id, v` after every operation, also inside
+//! transactions, after failed statements and after bulk-API calls), `last_gen` = the last value
+//! TurDB generated. Every generated value (row inserted without id / with NULL id, identified by
+//! its unique marker `v`) must be `fresh` (not in `ever`) and `increasing` (> `last_gen`).
+//! A generating INSERT that is rejected with a key violation although no explicit id of the
+//! statement collides is a `fresh` failure too (the generated value hit a value the column holds).
+//! A violating history is shrunk (ddmin over operations, then rows) and the signature names the
+//! labelled events that remain before the violating generation.
+use crate::report::{catch, Ctx};
+use crate::rng::{fnv, Rng};
+use crate::sqlm::db::{is_panic, panic_tag, Db, Outcome, Scratch};
+use crate::sqlm::val::V;
 use crate::Args;
+use serde_json::{json, Value as J};
+use std::collections::{BTreeMap, BTreeSet, HashMap};
+use std::path::PathBuf;
+use turdb::OwnedValue;
 
-pub fn run(_a: &Args) -> i32 {
-    println!("INCONCLUSIVE property=C12 reason=check not implemented yet");
-    2
+/// (name, id column definition, id is PRIMARY KEY)
+const VARIANTS: [(&str, &str, bool); 6] = [
+    ("pk_int", "id INT PRIMARY KEY AUTO_INCREMENT", true),
+    ("pk_bigint", "id BIGINT PRIMARY KEY AUTO_INCREMENT", true),
+    ("serial_pk", "id SERIAL PRIMARY KEY", true),
+    ("bigserial_pk", "id BIGSERIAL PRIMARY KEY", true),
+    ("plain_int", "id INT AUTO_INCREMENT", false),
+    ("plain_bigint", "id BIGINT AUTO_INCREMENT", false),
+];
+
+#[derive(Clone, Debug)]
+struct Cfg {
+    variant: usize,
+    wal: bool,
+}
+
+impl Cfg {
+    fn pk(&self) -> bool {
+        VARIANTS[self.variant].2
+    }
+    fn create_sql(&self) -> String {
+        format!("CREATE TABLE t ({}, v INT)", VARIANTS[self.variant].1)
+    }
+}
+
+#[derive(Clone, Debug, PartialEq)]
+enum IdSpec {
+    /// id column omitted (or NULL when the statement needs the column list)
+    Omit,
+    /// explicit NULL
+    Null,
+    Val(i64),
+}
+
+#[derive(Clone, Copy, Debug, PartialEq)]
+enum Api {
+    Batch,
+    BatchSchema,
+    Cached,
+    BulkInsert,
+}
+
+impl Api {
+    fn name(&self) -> &'static str {
+        match self {
+            Api::Batch => "insert_batch",
+            Api::BatchSchema => "insert_batch_into_schema",
+            Api::Cached => "insert_cached",
+            Api::BulkInsert => "bulk_insert",
+        }
+    }
+}
+
+#[derive(Clone, Debug)]
+enum Op {
+    Insert { rows: Vec<Sym>, returning: bool, nolist: bool },
+    Delete { picks: Vec<DelPick> },
+    DeleteAll,
+    Truncate { restart: bool },
+    Begin,
+    Commit,
+    Rollback,
+    Savepoint(u8),
+    RollbackTo(u8),
+    Release(u8),
+    Reopen,
+    /// explicit ids are offsets above the highest value held when the call is made
+    Bulk { api: Api, ids: Vec<Option<u32>> },
+}
+
+/// symbolic id of an INSERT row, resolved against the monitor state when the statement is executed
+/// (so that removing earlier operations while shrinking keeps its meaning)
+#[derive(Clone, Debug, PartialEq)]
+enum Sym {
+    Omit,
+    Null,
+    /// highest value held so far + k (k >= 1000 is forced when a generated row precedes it in the statement)
+    Above(u32),
+    /// the j-th (from the top) value below the highest held value that the column never held
+    Below(u32),
+    /// the id of the j-th row present (the statement must fail on a key column)
+    Equal(u32),
+}
+
+#[derive(Clone, Debug, PartialEq)]
+enum DelPick {
+    Max,
+    Nth(u32),
+}
+
+#[derive(Clone, Debug)]
+struct Viol {
+    assertion: &'static str,
+    detail: J,
+    events: Vec<String>,
+}
+
+enum Step {
+    Ok,
+    Viol(Viol),
+    /// the history cannot be judged any further (reason class)
+    Abort(String),
+}
+
+#[derive(Default, Clone, Debug)]
+struct Stats {
+    gens_checked: u64,
+    gens_after: BTreeMap<String, u64>,
+    counters: BTreeMap<String, u64>,
+}
+
+impl Stats {
+    fn c(&mut self, k: &str) {
+        *self.counters.entry(k.to_string()).or_insert(0) += 1;
+    }
+}
+
+struct St {
+    path: PathBuf,
+    db: Option<Db>,
+    cfg: Cfg,
+    ever: BTreeSet<i64>,
+    last_gen: Option<i64>,
+    /// (id, marker) of the rows currently visible
+    present: Vec<(Option<i64>, i64)>,
+    events: Vec<String>,
+    marker: i64,
+    in_txn: bool,
+    log: Vec<String>,
+    stats: Stats,
+}
+
+fn err_class(e: &str) -> String {
+    e.split(|c: char| !c.is_ascii_alphabetic()).filter(|w| !w.is_empty()).take(6).collect::<Vec<_>>().join("_").to_lowercase()
+}
+
+const NEUTRAL: [&str; 6] = ["gen", "begin", "commit", "release", "savepoint", "explicit_equal"];
+
+/// labelled events that matter for the signature, deduplicated in order of first occurrence
+fn causes(events: &[String]) -> Vec<String> {
+    let failed = events.iter().any(|e| e == "failed_statement");
+    let mut out: Vec<String> = vec![];
+    for e in events {
+        if e == "explicit_equal" && !failed {
+            // an explicit duplicate that did not make the statement fail (non-key column)
+            if !out.contains(&"explicit_equal".to_string()) {
+                out.push("explicit_equal".into());
+            }
+            continue;
+        }
+        if NEUTRAL.contains(&e.as_str()) {
+            continue;
+        }
+        if !out.contains(e) {
+            out.push(e.clone());
+        }
+    }
+    out
+}
+
+fn cause_sig(cs: &[String]) -> String {
+    if cs.is_empty() {
+        return "plain".into();
+    }
+    cs.iter().map(|c| if c.starts_with("bulk_api:") || c == "wal" { c.clone() } else { format!("after_{}", c) }).collect::<Vec<_>>().join("+")
+}
+
+impl St {
+    fn new(path: PathBuf, cfg: Cfg) -> Result<St, String> {
+        let mut db = Db::create(&path)?;
+        if cfg.wal {
+            db.exec("PRAGMA wal = ON")?;
+        }
+        db.exec(&cfg.create_sql())?;
+        Ok(St { path, db: Some(db), cfg, ever: BTreeSet::new(), last_gen: None, present: vec![], events: vec![], marker: 100, in_txn: false, log: vec![], stats: Stats::default() })
+    }
+
+    fn exec(&mut self, sql: &str) -> Result<Outcome, String> {
+        self.log.push(sql.to_string());
+        self.db.as_mut().unwrap().exec(sql)
+    }
+
+    fn hi(&self) -> i64 {
+        let a = self.ever.iter().next_back().copied().unwrap_or(0);
+        a.max(self.last_gen.unwrap_or(0))
+    }
+
+    /// read the whole table; updates `present` and `ever`
+    fn scan(&mut self) -> Result<(), String> {
+        let rows = self.db.as_mut().unwrap().query("SELECT id, v FROM t")?;
+        let mut p = vec![];
+        for r in rows {
+            let id = match r.get(0) {
+                Some(V::Int(i)) => Some(*i),
+                Some(V::Null) => None,
+                other => return Err(format!("id column reads back as {:?}", other)),
+            };
+            let m = match r.get(1) {
+                Some(V::Int(i)) => *i,
+                other => return Err(format!("marker column reads back as {:?}", other)),
+            };
+            p.push((id, m));
+        }
+        for (id, _) in &p {
+            if let Some(i) = id {
+                self.ever.insert(*i);
+            }
+        }
+        self.present = p;
+        Ok(())
+    }
+
+    /// class of an explicit id relative to the values held before its row
+    fn classify(&self, ever_row: &BTreeSet<i64>, x: i64) -> &'static str {
+        let hi = ever_row.iter().next_back().copied().unwrap_or(0).max(self.last_gen.unwrap_or(0));
+        if x > hi {
+            "explicit_above"
+        } else if ever_row.contains(&x) {
+            "explicit_equal"
+        } else {
+            "explicit_below"
+        }
+    }
+
+    /// judge one generated value
+    fn judge_generated(&mut self, id: i64, ever_before_row: &BTreeSet<i64>, ctx_sql: &str) -> Option<Viol> {
+        let cs = causes(&self.events);
+        self.stats.gens_checked += 1;
+        if cs.is_empty() {
+            *self.stats.gens_after.entry("plain".into()).or_insert(0) += 1;
+        }
+        for c in &cs {
+            *self.stats.gens_after.entry(c.clone()).or_insert(0) += 1;
+        }
+        if ever_before_row.contains(&id) {
+            return Some(Viol {
+                assertion: "fresh",
+                detail: json!({"generated": id, "statement": ctx_sql, "how": "the generated value was already held by the column earlier", "last_generated": self.last_gen, "max_ever_held": ever_before_row.iter().next_back()}),
+                events: self.events.clone(),
+            });
+        }
+        if let Some(l) = self.last_gen {
+            if id <= l {
+                return Some(Viol { assertion: "increasing", detail: json!({"generated": id, "last_generated": l, "statement": ctx_sql}), events: self.events.clone() });
+            }
+        }
+        None
+    }
+
+    fn finish_stmt_events(&mut self) {
+        for e in self.events.iter_mut() {
+            if let Some(s) = e.strip_suffix("_same_stmt") {
+                *e = s.to_string();
+            }
+        }
+    }
+
+    fn resolve_rows(&self, rows: &[Sym]) -> Vec<IdSpec> {
+        let mut held: BTreeSet<i64> = self.ever.clone();
+        let hi0 = self.hi();
+        let mut present: Vec<i64> = self.present.iter().filter_map(|(i, _)| *i).collect();
+        present.sort();
+        present.dedup();
+        let mut gen_seen = false;
+        let mut out = vec![];
+        for r in rows {
+            let spec = match r {
+                Sym::Omit => IdSpec::Omit,
+                Sym::Null => IdSpec::Null,
+                Sym::Above(k) => {
+                    let base = held.iter().next_back().copied().unwrap_or(0).max(hi0);
+                    let k = if gen_seen && *k < 1000 { *k + 1000 } else { *k };
+                    IdSpec::Val(base + k.max(1) as i64)
+                }
+                Sym::Below(j) => {
+                    let cands: Vec<i64> = (1..hi0).rev().filter(|x| !held.contains(x)).take(*j as usize + 1).collect();
+                    match cands.last() {
+                        Some(x) => IdSpec::Val(*x),
+                        None => IdSpec::Val(held.iter().next_back().copied().unwrap_or(0).max(hi0) + 1000 + *j as i64),
+                    }
+                }
+                Sym::Equal(j) => {
+                    if present.is_empty() {
+                        IdSpec::Omit
+                    } else {
+                        IdSpec::Val(present[*j as usize % present.len()])
+                    }
+                }
+            };
+            match &spec {
+                IdSpec::Val(x) => {
+                    held.insert(*x);
+                }
+                _ => gen_seen = true,
+            }
+            out.push(spec);
+        }
+        out
+    }
+
+    fn resolve_picks(&self, picks: &[DelPick]) -> Vec<i64> {
+        let mut present: Vec<i64> = self.present.iter().filter_map(|(i, _)| *i).collect();
+        present.sort();
+        present.dedup();
+        let mut ids = vec![];
+        if present.is_empty() {
+            return ids;
+        }
+        for p in picks {
+            let x = match p {
+                DelPick::Max => *present.last().unwrap(),
+                DelPick::Nth(j) => present[*j as usize % present.len()],
+            };
+            if !ids.contains(&x) {
+                ids.push(x);
+            }
+        }
+        ids
+    }
+
+    fn do_insert(&mut self, rows: &[IdSpec], returning: bool, nolist: bool) -> Step {
+        let pk = self.cfg.pk();
+        let markers: Vec<i64> = rows
+            .iter()
+            .map(|_| {
+                self.marker += 1;
+                self.marker
+            })
+            .collect();
+        let all_omit = rows.iter().all(|r| *r == IdSpec::Omit);
+        let mut sql = if all_omit {
+            format!("INSERT INTO t (v) VALUES {}", markers.iter().map(|m| format!("({})", m)).collect::<Vec<_>>().join(", "))
+        } else {
+            let vals = rows
+                .iter()
+                .zip(&markers)
+                .map(|(r, m)| match r {
+                    IdSpec::Val(x) => format!("({}, {})", x, m),
+                    _ => format!("(NULL, {})", m),
+                })
+                .collect::<Vec<_>>()
+                .join(", ");
+            if nolist {
+                format!("INSERT INTO t VALUES {}", vals)
+            } else {
+                format!("INSERT INTO t (id, v) VALUES {}", vals)
+            }
+        };
+        if returning {
+            sql.push_str(" RETURNING id, v");
+        }
+        // does a correct implementation have to reject the statement? (explicit ids colliding with
+        // present rows or with each other on a key column)
+        let mut expect_fail = false;
+        if pk {
+            let mut seen: BTreeSet<i64> = self.present.iter().filter_map(|(i, _)| *i).collect();
+            for r in rows {
+                if let IdSpec::Val(x) = r {
+                    if !seen.insert(*x) {
+                        expect_fail = true;
+                    }
+                }
+            }
+        }
+        let had_present = !self.present.is_empty();
+        let res = self.exec(&sql);
+        let returned: HashMap<i64, Option<i64>> = match &res {
+            Ok(Outcome::Dml(_, Some(rs))) => rs
+                .iter()
+                .filter_map(|r| match (r.get(0), r.get(1)) {
+                    (Some(V::Int(i)), Some(V::Int(m))) => Some((*m, Some(*i))),
+                    (Some(V::Null), Some(V::Int(m))) => Some((*m, None)),
+                    _ => None,
+                })
+                .collect(),
+            _ => HashMap::new(),
+        };
+        if let Err(e) = &res {
+            if is_panic(e) {
+                return Step::Abort(format!("panic_in_insert@{}", panic_tag(e)));
+            }
+        }
+        let mut ever_row = self.ever.clone();
+        for (_, id) in returned.iter() {
+            // RETURNING values are observations of the column as well
+            if let Some(i) = id {
+                self.ever.insert(*i);
+            }
+        }
+        if let Err(e) = self.scan() {
+            return Step::Abort(format!("scan_failed:{}", err_class(&e)));
+        }
+        let found: HashMap<i64, Option<i64>> = self.present.iter().map(|(i, m)| (*m, *i)).collect();
+        for (r, m) in rows.iter().zip(&markers) {
+            let stored = found.get(m).copied().or_else(|| returned.get(m).copied());
+            if let (Some(a), Some(b)) = (found.get(m), returned.get(m)) {
+                if a != b {
+                    self.stats.c("returning_differs_from_stored");
+                }
+            }
+            match r {
+                IdSpec::Val(x) => {
+                    let label = format!("{}_same_stmt", self.classify(&ever_row, *x));
+                    self.events.push(label);
+                    if let Some(Some(i)) = stored {
+                        ever_row.insert(i);
+                    }
+                }
+                IdSpec::Omit | IdSpec::Null => match stored {
+                    Some(Some(id)) => {
+                        if let Some(v) = self.judge_generated(id, &ever_row, &sql) {
+                            return Step::Viol(v);
+                        }
+                        ever_row.insert(id);
+                        self.last_gen = Some(id);
+                        self.events.push("gen".into());
+                    }
+                    Some(None) => self.stats.c("insert_stored_null_instead_of_generating"),
+                    None => {
+                        if res.is_ok() {
+                            return Step::Abort("inserted_row_not_visible".into());
+                        }
+                    }
+                },
+            }
+        }
+        let has_gen = rows.iter().any(|r| !matches!(r, IdSpec::Val(_)));
+        match &res {
+            Err(e) => {
+                if expect_fail {
+                    self.finish_stmt_events();
+                    self.events.push("failed_statement".into());
+                } else if has_gen && e.to_lowercase().contains("constraint violated") && had_present {
+                    let v = Viol {
+                        assertion: "fresh",
+                        detail: json!({"statement": sql, "error": e, "how": "a statement asking for a generated id was rejected with a key violation although none of its explicit ids collides: the generated value equals a value the column holds", "present_ids": self.present.iter().filter_map(|(i, _)| *i).collect::<Vec<_>>(), "last_generated": self.last_gen}),
+                        events: self.events.clone(),
+                    };
+                    return Step::Viol(v);
+                } else {
+                    return Step::Abort(format!("insert_error:{}", err_class(e)));
+                }
+            }
+            Ok(_) => {
+                if expect_fail {
+                    self.stats.c("duplicate_explicit_key_accepted");
+                }
+                self.finish_stmt_events();
+            }
+        }
+        Step::Ok
+    }
+
+    fn do_bulk(&mut self, api: Api, ids: &[Option<i64>]) -> Step {
+        let markers: Vec<i64> = ids
+            .iter()
+            .map(|_| {
+                self.marker += 1;
+                self.marker
+            })
+            .collect();
+        let rows: Vec<Vec<OwnedValue>> = ids.iter().zip(&markers).map(|(i, m)| vec![i.map(OwnedValue::Int).unwrap_or(OwnedValue::Null), OwnedValue::Int(*m)]).collect();
+        self.log.push(format!("-- {}(t, ids={:?}, markers={:?})", api.name(), ids, markers));
+        let db = &self.db.as_ref().unwrap().db;
+        let res: Result<Result<String, String>, String> = catch(|| match api {
+            Api::Batch => db.insert_batch("t", &rows).map(|n| n.to_string()).map_err(|e| format!("{:#}", e)),
+            Api::BatchSchema => db.insert_batch_into_schema("root", "t", &rows).map(|n| n.to_string()).map_err(|e| format!("{:#}", e)),
+            Api::BulkInsert => db.bulk_insert("t", rows.clone()).map(|n| n.to_string()).map_err(|e| format!("{:#}", e)),
+            Api::Cached => {
+                let stmt = db.prepare("INSERT INTO t VALUES (?, ?)").map_err(|e| format!("{:#}", e))?;
+                let mut n = 0;
+                for r in &rows {
+                    stmt.bind(r[0].clone()).bind(r[1].clone()).execute(db).map_err(|e| format!("row {}: {:#}", n, e))?;
+                    n += 1;
+                }
+                Ok(n.to_string())
+            }
+        });
+        let label = format!("bulk_api:{}", api.name());
+        match &res {
+            Err(p) => return Step::Abort(format!("panic_in_{}@{}", api.name(), panic_tag(&format!("PANIC: {}", p)))),
+            Ok(Err(e)) => {
+                self.stats.c(&format!("bulk_call_error:{}:{}", api.name(), err_class(e)));
+            }
+            Ok(Ok(_)) => {}
+        }
+        self.events.push(label);
+        let mut ever_row = self.ever.clone();
+        if let Err(e) = self.scan() {
+            return Step::Abort(format!("scan_failed_after_{}:{}", api.name(), err_class(&e)));
+        }
+        let found: HashMap<i64, Option<i64>> = self.present.iter().map(|(i, m)| (*m, *i)).collect();
+        for (k, (i, m)) in ids.iter().zip(&markers).enumerate() {
+            match (i, found.get(m)) {
+                (Some(_), Some(Some(st))) => {
+                    ever_row.insert(*st);
+                }
+                (None, Some(Some(id))) => {
+                    let id = *id;
+                    if let Some(v) = self.judge_generated(id, &ever_row, &format!("{}(row {} with NULL id)", api.name(), k)) {
+                        return Step::Viol(v);
+                    }
+                    ever_row.insert(id);
+                    self.last_gen = Some(id);
+                }
+                (None, Some(None)) => self.stats.c(&format!("null_id_stored_as_null_by:{}", api.name())),
+                (_, None) => self.stats.c(&format!("row_not_visible_after:{}", api.name())),
+                (Some(_), Some(None)) => self.stats.c(&format!("explicit_id_reads_null_after:{}", api.name())),
+            }
+        }
+        Step::Ok
+    }
+
+    fn exec_op(&mut self, op: &Op) -> Step {
+        match op {
+            Op::Insert { rows, returning, nolist } => {
+                let rows = self.resolve_rows(rows);
+                self.do_insert(&rows, *returning, *nolist)
+            }
+            Op::Delete { picks } => {
+                let ids = self.resolve_picks(picks);
+                if ids.is_empty() {
+                    return Step::Ok;
+                }
+                let maxp = self.present.iter().filter_map(|(i, _)| *i).max();
+                let sql = if ids.len() == 1 { format!("DELETE FROM t WHERE id = {}", ids[0]) } else { format!("DELETE FROM t WHERE id IN ({})", ids.iter().map(|i| i.to_string()).collect::<Vec<_>>().join(", ")) };
+                match self.exec(&sql) {
+                    Ok(_) => {}
+                    Err(e) => return Step::Abort(format!("delete_error:{}", err_class(&e))),
+                }
+                let hit_max = maxp.map_or(false, |m| ids.contains(&m));
+                if let Err(e) = self.scan() {
+                    return Step::Abort(format!("scan_failed:{}", err_class(&e)));
+                }
+                let still = maxp.map_or(false, |m| self.present.iter().any(|(i, _)| *i == Some(m)));
+                if hit_max && !still {
+                    self.events.push("delete_max".into());
+                } else {
+                    self.events.push("delete".into());
+                }
+                Step::Ok
+            }
+            Op::DeleteAll => {
+                let nonempty = !self.present.is_empty();
+                if let Err(e) = self.exec("DELETE FROM t") {
+                    return Step::Abort(format!("delete_error:{}", err_class(&e)));
+                }
+                if let Err(e) = self.scan() {
+                    return Step::Abort(format!("scan_failed:{}", err_class(&e)));
+                }
+                if nonempty && self.present.is_empty() {
+                    self.events.push("delete_max".into());
+                }
+                Step::Ok
+            }
+            Op::Truncate { restart } => {
+                if self.in_txn {
+                    return Step::Ok;
+                }
+                let sql = if *restart { "TRUNCATE TABLE t RESTART IDENTITY" } else { "TRUNCATE TABLE t" };
+                if let Err(e) = self.exec(sql) {
+                    return Step::Abort(format!("truncate_error:{}", err_class(&e)));
+                }
+                if let Err(e) = self.scan() {
+                    return Step::Abort(format!("scan_failed:{}", err_class(&e)));
+                }
+                if *restart {
+                    // the one documented way values may restart: from here on only values that are
+                    // present now (none, normally) count as held
+                    self.ever = self.present.iter().filter_map(|(i, _)| *i).collect();
+                    self.last_gen = None;
+                    self.events.clear();
+                    self.events.push("truncate_restart".into());
+                } else {
+                    self.events.push("truncate".into());
+                }
+                Step::Ok
+            }
+            Op::Begin => {
+                if !self.in_txn && self.exec("BEGIN").is_ok() {
+                    self.in_txn = true;
+                    self.events.push("begin".into());
+                }
+                Step::Ok
+            }
+            Op::Commit => {
+                if self.in_txn {
+                    let r = self.exec("COMMIT");
+                    self.in_txn = false;
+                    if let Err(e) = r {
+                        return Step::Abort(format!("commit_error:{}", err_class(&e)));
+                    }
+                    self.events.push("commit".into());
+                    if let Err(e) = self.scan() {
+                        return Step::Abort(format!("scan_failed:{}", err_class(&e)));
+                    }
+                }
+                Step::Ok
+            }
+            Op::Rollback => {
+                if self.in_txn {
+                    let r = self.exec("ROLLBACK");
+                    self.in_txn = false;
+                    if let Err(e) = r {
+                        return Step::Abort(format!("rollback_error:{}", err_class(&e)));
+                    }
+                    self.events.push("rollback".into());
+                    if let Err(e) = self.scan() {
+                        return Step::Abort(format!("scan_failed:{}", err_class(&e)));
+                    }
+                }
+                Step::Ok
+            }
+            Op::Savepoint(i) => {
+                if self.in_txn && self.exec(&format!("SAVEPOINT sp{}", i)).is_ok() {
+                    self.events.push("savepoint".into());
+                }
+                Step::Ok
+            }
+            Op::RollbackTo(i) => {
+                if self.in_txn && self.exec(&format!("ROLLBACK TO sp{}", i)).is_ok() {
+                    self.events.push("savepoint_rollback".into());
+                    if let Err(e) = self.scan() {
+                        return Step::Abort(format!("scan_failed:{}", err_class(&e)));
+                    }
+                }
+                Step::Ok
+            }
+            Op::Release(i) => {
+                if self.in_txn && self.exec(&format!("RELEASE sp{}", i)).is_ok() {
+                    self.events.push("release".into());
+                }
+                Step::Ok
+            }
+            Op::Reopen => {
+                let was_txn = self.in_txn;
+                self.log.push("-- drop handle; Database::open".into());
+                let old = self.db.take();
+                if let Err(p) = catch(move || drop(old)) {
+                    return Step::Abort(format!("panic_in_drop@{}", panic_tag(&format!("PANIC: {}", p))));
+                }
+                self.in_txn = false;
+                match Db::open(&self.path) {
+                    Ok(d) => self.db = Some(d),
+                    Err(e) => return Step::Abort(format!("open_error:{}", err_class(&e))),
+                }
+                if self.cfg.wal {
+                    if let Err(e) = self.exec("PRAGMA wal = ON") {
+                        return Step::Abort(format!("pragma_error:{}", err_class(&e)));
+                    }
+                }
+                self.events.push(if was_txn { "reopen_in_txn".into() } else { "reopen".into() });
+                if let Err(e) = self.scan() {
+                    return Step::Abort(format!("scan_failed_after_reopen:{}", err_class(&e)));
+                }
+                Step::Ok
+            }
+            Op::Bulk { api, ids } => {
+                let hi = self.hi();
+                let ids: Vec<Option<i64>> = ids.iter().map(|o| o.map(|k| hi + k as i64)).collect();
+                self.do_bulk(*api, &ids)
+            }
+        }
+    }
+}
+
+/// features a history may draw from
+#[derive(Clone, Debug, Default)]
+struct Feat {
+    explicit: bool,
+    multirow: bool,
+    delete: bool,
+    truncate: bool,
+    fail: bool,
+    txn: bool,
+    savepoint: bool,
+    reopen: bool,
+    bulk: Option<Api>,
+}
+
+fn gen_feat(rng: &mut Rng) -> Feat {
+    loop {
+        let f = Feat {
+            explicit: rng.chance(2, 5),
+            multirow: rng.chance(2, 5),
+            delete: rng.chance(2, 5),
+            truncate: rng.chance(1, 6),
+            fail: rng.chance(1, 4),
+            txn: rng.chance(1, 3),
+            savepoint: rng.chance(1, 5),
+            reopen: rng.chance(1, 3),
+            bulk: if rng.chance(1, 4) { Some(*rng.pick(&[Api::Batch, Api::BatchSchema, Api::Cached, Api::BulkInsert])) } else { None },
+        };
+        if f.explicit || f.delete || f.truncate || f.fail || f.txn || f.reopen || f.bulk.is_some() {
+            return f;
+        }
+    }
+}
+
+fn gen_insert(rng: &mut Rng, st: &St, f: &Feat, want_fail: bool) -> Op {
+    let n = if f.multirow && rng.chance(1, 2) { rng.usize(2, 5) } else { 1 };
+    let mut rows: Vec<Sym> = vec![];
+    for _ in 0..n {
+        let explicit = f.explicit && rng.chance(2, 5);
+        if !explicit {
+            rows.push(if rng.chance(1, 2) { Sym::Omit } else { Sym::Null });
+            continue;
+        }
+        // explicit id: just above the highest held value (resolution moves it far above when a
+        // generated row precedes it in the statement, see the soundness note in `run`), far above,
+        // or a never-held value below
+        rows.push(match rng.below(10) {
+            0..=3 => Sym::Above(1 + rng.below(3) as u32),
+            4 | 5 => Sym::Above(1000 + rng.below(50) as u32),
+            _ => Sym::Below(rng.below(4) as u32),
+        });
+    }
+    if want_fail && !st.present.is_empty() {
+        // a duplicate of a present id on a later row (the statement must fail on a key column)
+        let pos = rng.usize(if rows.len() > 1 { 1 } else { 0 }, rows.len());
+        rows.insert(pos, Sym::Equal(rng.below(64) as u32));
+        if pos + 1 == rows.len() && rng.chance(1, 2) {
+            rows.push(Sym::Null);
+        }
+        if rows.len() == 1 || rows.iter().all(|r| !matches!(r, Sym::Omit | Sym::Null)) {
+            rows.insert(0, Sym::Null);
+        }
+    }
+    Op::Insert { rows, returning: rng.chance(1, 2), nolist: rng.chance(1, 3) }
+}
+
+fn gen_op(rng: &mut Rng, st: &St, f: &Feat, sp_next: &mut u8, sps: &mut Vec<u8>, prev_interesting: bool) -> Op {
+    if prev_interesting && rng.chance(7, 10) {
+        return gen_insert(rng, st, &Feat { explicit: false, ..f.clone() }, false);
+    }
+    let present: Vec<i64> = st.present.iter().filter_map(|(i, _)| *i).collect();
+    for _ in 0..20 {
+        match rng.below(14) {
+            0..=4 => return gen_insert(rng, st, f, false),
+            5 if f.fail => return gen_insert(rng, st, f, true),
+            6 if f.delete && !present.is_empty() => {
+                return match rng.below(5) {
+                    0 | 1 => Op::Delete { picks: vec![DelPick::Max] },
+                    2 => Op::Delete { picks: vec![DelPick::Nth(rng.below(64) as u32)] },
+                    3 => {
+                        let mut picks = vec![DelPick::Max];
+                        for _ in 0..rng.usize(1, 3) {
+                            picks.push(DelPick::Nth(rng.below(64) as u32));
+                        }
+                        Op::Delete { picks }
+                    }
+                    _ => Op::DeleteAll,
+                };
+            }
+            7 if f.truncate && !st.in_txn => return Op::Truncate { restart: rng.chance(1, 4) },
+            8 if f.txn => {
+                if !st.in_txn {
+                    sps.clear();
+                    return Op::Begin;
+                }
+                return if rng.chance(3, 5) { Op::Rollback } else { Op::Commit };
+            }
+            9 if f.savepoint && st.in_txn => {
+                if sps.is_empty() || rng.chance(1, 2) {
+                    *sp_next += 1;
+                    sps.push(*sp_next);
+                    return Op::Savepoint(*sp_next);
+                }
+                let i = rng.below(sps.len() as u64) as usize;
+                let id = sps[i];
+                return if rng.chance(3, 4) {
+                    sps.truncate(i + 1);
+                    Op::RollbackTo(id)
+                } else {
+                    sps.truncate(i);
+                    Op::Release(id)
+                };
+            }
+            9 if f.savepoint && !st.in_txn => {
+                sps.clear();
+                return Op::Begin;
+            }
+            10 if f.reopen && (!st.in_txn || rng.chance(1, 4)) => return Op::Reopen,
+            11 | 12 if f.bulk.is_some() => {
+                let api = f.bulk.unwrap();
+                let n = rng.usize(1, 4) + if api == Api::Cached { 1 } else { 0 };
+                let mut next: u32 = 1 + if rng.chance(1, 3) { 100 } else { 0 };
+                let nulls = rng.chance(1, 4);
+                let ids = (0..n)
+                    .map(|_| {
+                        if nulls {
+                            None
+                        } else {
+                            let x = next;
+                            next += 1 + rng.below(2) as u32;
+                            Some(x)
+                        }
+                    })
+                    .collect();
+                return Op::Bulk { api, ids };
+            }
+            _ => {}
+        }
+    }
+    gen_insert(rng, st, f, false)
+}
+
+fn interesting(op: &Op) -> bool {
+    match op {
+        Op::Insert { rows, .. } => rows.iter().any(|r| !matches!(r, Sym::Omit | Sym::Null)),
+        Op::Begin | Op::Savepoint(_) | Op::Commit | Op::Release(_) => false,
+        _ => true,
+    }
+}
+
+struct RunOut {
+    viol: Option<(Viol, usize)>,
+    abort: Option<String>,
+    log: Vec<String>,
+    stats: Stats,
+}
+
+/// replay a fixed list of operations on a fresh database
+fn replay(scratch: &Scratch, tag: &str, cfg: &Cfg, ops: &[Op]) -> RunOut {
+    let mut st = match St::new(scratch.dir(tag), cfg.clone()) {
+        Ok(s) => s,
+        Err(e) => return RunOut { viol: None, abort: Some(format!("setup:{}", err_class(&e))), log: vec![], stats: Stats::default() },
+    };
+    let mut out = RunOut { viol: None, abort: None, log: vec![], stats: Stats::default() };
+    for (i, op) in ops.iter().enumerate() {
+        match st.exec_op(op) {
+            Step::Ok => {}
+            Step::Viol(v) => {
+                out.viol = Some((v, i));
+                break;
+            }
+            Step::Abort(r) => {
+                out.abort = Some(r);
+                break;
+            }
+        }
+    }
+    out.log = std::mem::take(&mut st.log);
+    out.stats = st.stats.clone();
+    let db = st.db.take();
+    let _ = catch(move || drop(db));
+    out
+}
+
+fn shrink(scratch: &Scratch, tag: &str, cfg: &Cfg, ops: &[Op], assertion: &str, budget: &mut u32) -> (Cfg, Vec<Op>) {
+    let mut cur: Vec<Op> = ops.to_vec();
+    let mut cfg = cfg.clone();
+    let mut fails = |cfg: &Cfg, cand: &[Op], budget: &mut u32| -> Option<usize> {
+        if *budget == 0 {
+            return None;
+        }
+        *budget -= 1;
+        let r = replay(scratch, tag, cfg, cand);
+        match r.viol {
+            Some((v, at)) if v.assertion == assertion => Some(at),
+            _ => None,
+        }
+    };
+    let mut chunk = (cur.len() / 2).max(1);
+    loop {
+        let mut i = 0;
+        while i + chunk + 1 <= cur.len() {
+            let mut cand = cur.clone();
+            cand.drain(i..i + chunk);
+            if let Some(at) = fails(&cfg, &cand, budget) {
+                cand.truncate(at + 1);
+                cur = cand;
+            } else {
+                i += chunk;
+            }
+        }
+        if chunk == 1 {
+            break;
+        }
+        chunk /= 2;
+    }
+    // rows of multi-row inserts / bulk calls
+    let mut oi = 0;
+    while oi < cur.len() {
+        let n = match &cur[oi] {
+            Op::Insert { rows, .. } => rows.len(),
+            Op::Bulk { ids, .. } => ids.len(),
+            _ => 0,
+        };
+        let mut ri = 0;
+        let mut n = n;
+        while n > 1 && ri < n {
+            let mut cand = cur.clone();
+            match &mut cand[oi] {
+                Op::Insert { rows, .. } => {
+                    rows.remove(ri);
+                }
+                Op::Bulk { ids, .. } => {
+                    ids.remove(ri);
+                }
+                _ => {}
+            }
+            if fails(&cfg, &cand, budget).is_some() {
+                cur = cand;
+                n -= 1;
+            } else {
+                ri += 1;
+            }
+        }
+        oi += 1;
+    }
+    if cfg.wal {
+        let c2 = Cfg { wal: false, ..cfg.clone() };
+        if fails(&c2, &cur, budget).is_some() {
+            cfg = c2;
+        }
+    }
+    (cfg, cur)
+}
+
+struct HistOut {
+    evals: u64,
+    stats: Stats,
+    abort: Option<(String, J)>,
+    nontrivial: Option<u64>,
+    sample: Option<J>,
+    viol: Option<(&'static str, String, J)>,
+    shrink_runs: u64,
+}
+
+/// one generated history (number `i` of the run) on worker `w`'s scratch directory
+fn one_history(scratch: &Scratch, w: usize, seed: u64, i: u64, may_shrink: bool) -> Result<HistOut, String> {
+    let mut rng = Rng::derive(seed.wrapping_mul(1_000_003).wrapping_add(i), 12);
+    let cfg = Cfg { variant: rng.below(VARIANTS.len() as u64) as usize, wal: rng.chance(1, 3) };
+    let f = gen_feat(&mut rng);
+    let len = rng.usize(8, 32);
+    let mut st = St::new(scratch.dir(&format!("w{}h", w)), cfg.clone())?;
+    let mut out = HistOut { evals: 0, stats: Stats::default(), abort: None, nontrivial: None, sample: None, viol: None, shrink_runs: 0 };
+    let mut ops: Vec<Op> = vec![];
+    let mut sp_next = 0u8;
+    let mut sps: Vec<u8> = vec![];
+    let mut viol: Option<Viol> = None;
+    let mut prev_int = false;
+    for k in 0..len {
+        // start with a few plain rows so that there is something to collide with
+        let op = if k < 2 { Op::Insert { rows: vec![Sym::Omit; 1 + rng.below(2) as usize], returning: rng.chance(1, 2), nolist: false } } else { gen_op(&mut rng, &st, &f, &mut sp_next, &mut sps, prev_int) };
+        prev_int = interesting(&op);
+        ops.push(op.clone());
+        out.evals += 1;
+        match st.exec_op(&op) {
+            Step::Ok => {}
+            Step::Viol(v) => {
+                viol = Some(v);
+                break;
+            }
+            Step::Abort(r) => {
+                out.abort = Some((r, json!({"table": cfg.create_sql(), "wal": cfg.wal, "log_tail": st.log.iter().rev().take(8).rev().collect::<Vec<_>>()})));
+                break;
+            }
+        }
+    }
+    let log = std::mem::take(&mut st.log);
+    out.stats = st.stats.clone();
+    let judged_after_event = st.stats.gens_after.iter().any(|(k, v)| k != "plain" && *v > 0);
+    if judged_after_event {
+        out.nontrivial = Some(fnv(format!("{:?}{:?}", cfg, ops).as_bytes()));
+    }
+    if judged_after_event && viol.is_none() && ops.len() >= 10 {
+        out.sample = Some(json!({"table": cfg.create_sql(), "wal": cfg.wal, "history": log}));
+    }
+    let db = st.db.take();
+    let _ = catch(move || drop(db));
+    drop(st);
+    if let Some(v) = viol {
+        let mut budget: u32 = if may_shrink { 150 } else { 0 };
+        let tag = format!("w{}s", w);
+        let (mcfg, mops) = shrink(scratch, &tag, &cfg, &ops, v.assertion, &mut budget);
+        out.shrink_runs = (150 - budget.min(150)) as u64;
+        let r = replay(scratch, &tag, &mcfg, &mops);
+        let (mv, mlog) = match r.viol {
+            Some((mv, _)) if mv.assertion == v.assertion => (mv, r.log),
+            _ => (v.clone(), log.clone()),
+        };
+        let mut cs = causes(&mv.events);
+        if mcfg.wal {
+            cs.push("wal".into());
+        }
+        let sig = format!("C12/{}/{}", mv.assertion, cause_sig(&cs));
+        out.viol = Some((mv.assertion, sig, json!({"table": mcfg.create_sql(), "wal": mcfg.wal, "minimal_history": mlog, "minimal_detail": mv.detail, "events_before": mv.events, "original_history": log, "original_detail": v.detail})));
+    }
+    Ok(out)
+}
+
+pub fn run(a: &Args) -> i32 {
+    let mut ctx = Ctx::new(
+        "C12",
+        &a.tier,
+        a.seed,
+        "exploration",
+        "generated histories (8..32 operations, fresh database each, a small random feature subset per history) on tables `t(id <INT|BIGINT [PRIMARY KEY] AUTO_INCREMENT | SERIAL/BIGSERIAL PRIMARY KEY>, v INT)`, WAL on/off: INSERT without id / with NULL id / with explicit ids just above, far above, below the highest value ever held, multi-row statements mixing them, statements that must fail on a later row (duplicate explicit key), DELETE (incl. the maximum id, all rows), TRUNCATE [RESTART IDENTITY], BEGIN..COMMIT/ROLLBACK, SAVEPOINT/ROLLBACK TO/RELEASE, drop+Database::open (also with an open transaction), and insert_batch / insert_batch_into_schema / prepared-statement insert_cached / bulk_insert calls with explicit or NULL ids. Monitor: ever_held = every id observed by RETURNING or by a full `SELECT id, v` after every operation (so rolled-back, deleted and partially applied rows count), last_generated. Every generated id (row identified by its unique marker v) must be fresh (not in ever_held) and increasing (> last_generated); a generating INSERT rejected with a key violation although no explicit id collides counts as `fresh` (the generated value hit a held value). A violating history is shrunk (ddmin over operations, rows, WAL off); signature = assertion / labelled events remaining before the violating generation. evaluations = operations executed; distinct_nontrivial = distinct histories in which at least one generated id was judged after a labelled event (delete, rollback, failed statement, reopen, explicit id, truncate, bulk API)",
+    );
+    if cfg!(miri) {
+        ctx.inconclusive("Database requires mmap'd files; not runnable under Miri");
+        return ctx.finish();
+    }
+    let quick = ctx.quick();
+    let scratch = Scratch::new("c12");
+    let max_hist: u64 = if quick { 600 } else { 12000 };
+    let explore_s = if quick { 30.0 } else { 380.0 };
+    let hard_s = if quick { 45.0 } else { 520.0 };
+    let threads = 8usize;
+    let mut gens_after: BTreeMap<String, u64> = BTreeMap::new();
+    let mut aborts: BTreeMap<String, u64> = BTreeMap::new();
+    let mut abort_examples: BTreeMap<String, J> = BTreeMap::new();
+    let mut counters: BTreeMap<String, u64> = BTreeMap::new();
+    let mut shrink_runs = 0u64;
+    let mut hist_no = 0u64;
+    let next = std::sync::atomic::AtomicU64::new(0);
+    let t0 = std::time::Instant::now();
+    let (tx, rx) = std::sync::mpsc::channel::<Result<HistOut, String>>();
+    let seed = a.seed;
+    std::thread::scope(|s| {
+        for w in 0..threads {
+            let tx = tx.clone();
+            let (next, scratch) = (&next, &scratch);
+            s.spawn(move || loop {
+                let i = next.fetch_add(1, std::sync::atomic::Ordering::SeqCst);
+                let el = t0.elapsed().as_secs_f64();
+                if i >= max_hist || el > explore_s {
+                    break;
+                }
+                let r = match catch(|| one_history(scratch, w, seed, i, t0.elapsed().as_secs_f64() < hard_s)) {
+                    Ok(r) => r,
+                    Err(p) => Err(format!("harness panic: {}", p)),
+                };
+                if tx.send(r).is_err() {
+                    break;
+                }
+            });
+        }
+        drop(tx);
+        for r in rx {
+            let o = match r {
+                Ok(o) => o,
+                Err(e) => {
+                    ctx.inconclusive(&format!("history could not run: {}", e));
+                    continue;
+                }
+            };
+            hist_no += 1;
+            ctx.evals(o.evals);
+            for (k, v) in &o.stats.gens_after {
+                *gens_after.entry(k.clone()).or_insert(0) += v;
+            }
+            for (k, v) in &o.stats.counters {
+                *counters.entry(k.clone()).or_insert(0) += v;
+            }
+            ctx.count("generated_ids_judged", o.stats.gens_checked);
+            if let Some(h) = o.nontrivial {
+                ctx.nontrivial(h);
+            }
+            if let Some(sm) = o.sample {
+                if ctx.samples.len() < 4 {
+                    ctx.sample(sm);
+                }
+            }
+            if let Some((r, ex)) = o.abort {
+                *aborts.entry(r.clone()).or_insert(0) += 1;
+                abort_examples.entry(r).or_insert(ex);
+            }
+            shrink_runs += o.shrink_runs;
+            if let Some((assertion, sig, detail)) = o.viol {
+                ctx.violation(assertion, &sig, detail);
+            }
+        }
+    });
+    ctx.count("histories", hist_no);
+    ctx.count("shrink_replays", shrink_runs);
+    for (k, v) in &counters {
+        ctx.count(k, *v);
+    }
+    ctx.extra.insert("generated_ids_judged_after_event".into(), json!(gens_after));
+    ctx.extra.insert("histories_abandoned_unjudged".into(), json!(aborts));
+    ctx.extra.insert("abandoned_examples".into(), json!(abort_examples));
+    ctx.assumptions.push("explicit ids just above the highest held value are only placed before any generated row of a statement (a correct engine may have burnt counter values in rejected rows); otherwise explicit ids are far above (+1000) or unused values below; UPDATE of the AUTO_INCREMENT column, INSERT..SELECT and ON CONFLICT are not generated; after TRUNCATE .. RESTART IDENTITY the monitor restarts from the values present; TRUNCATE is not issued inside transactions; a history is abandoned without verdict when a statement fails for a reason other than the planned duplicate key or the table cannot be scanned (counted in histories_abandoned_unjudged); 8 worker threads, each history on its own database, history i is a function of (seed, i) only".into());
+    ctx.finish()
 }
